@@ -21,7 +21,8 @@ def run(res):
                  "references), own testing.TB (Fatal/Skip = runtime.Goexit in the test goroutine), per-test watchdog (servers stopped, test counted as failed), "
                  "wire-level monitor (Get ALL + VerifSessions + VerifPendingIDs after every test; election ids recorded by a wrapping GRIBIServer), "
                  "fault wrappers around *server.Server (faults.go)"],
-        assumptions=["a test that the fault leaves waiting is normally stopped after 4 s and counted as failed; one FIB-ACK test per run (chosen by the seed) is instead given 150 s against the server that never sends the FIB acknowledgement, in a child process beside the other cases: it must end by itself, with a failure (the suite bounds each of its waits by a minute; a test that waits without bound reports nothing)",
+        assumptions=["every test of the suite is also run as the FIRST test of a process of its own (child processes, eight at a time), followed by three sentinel tests on the same long-lived reference servers: all must pass - what a test leaves behind in package variables of the suite, its checkers or the client must not change later verdicts",
+                     "a test that the fault leaves waiting is normally stopped after 4 s and counted as failed; one FIB-ACK test per run (chosen by the seed) is instead given 150 s against the server that never sends the FIB acknowledgement, in a child process beside the other cases: it must end by itself, with a failure (the suite bounds each of its waits by a minute; a test that waits without bound reports nothing)",
                      "two faults are judged by the harness alone (numbers 16, 17: unknown to Compliance.v, model_pass = None): wrong_reject_reason (every ModifyRPCErrorDetails reason replaced by another one; code and message kept) and leak_results_to_other_sessions (every response with results is first copied to every other open Modify stream); they guard the checkers and the client the suite is built from (chk.HasRecvClientErrorWithStatus ignoring details, a client that no longer records a result for an unknown operation as an error)",
                      "designated tests: for omit_fib every test of compliance.TestSuite that declares RequiresFIBACK (enumerated from the suite at run time), for "
                      "omit_fib_for_deletes_only those of them that delete entries, must fail - each run concurrently on its own fresh faulty server (the same batch "
